@@ -436,3 +436,33 @@ func laterElement(r *vl.Rng, s *idlgen.Schema, sidx int, v *values.Value, nilLea
 	}
 	return nil, nil, false
 }
+
+// dropZeroSizeKeys empties (in place) every map whose KEY type is a struct without fields. Such a key is a pointer to a
+// zero-size object, and Go leaves it unspecified whether pointers to distinct zero-size variables are equal (the runtime
+// gives them all one address): whether `src[k]` finds the key of a deep copy is then the Go runtime's choice, not
+// thriftgo's. These values are kept out of the correspondence and the oracle. Returns the number of maps emptied.
+func dropZeroSizeKeys(s *idlgen.Schema, t *idlgen.RType, v *values.Value) int {
+	if v.IsNil() {
+		return 0
+	}
+	n := 0
+	switch t.Kind {
+	case idlgen.RStruct:
+		for i, f := range s.Structs[t.Sidx].Fields {
+			n += dropZeroSizeKeys(s, f.Type, v.E[i])
+		}
+	case idlgen.RList, idlgen.RSet:
+		for _, e := range v.E {
+			n += dropZeroSizeKeys(s, t.Elem, e)
+		}
+	case idlgen.RMap:
+		if t.Key.Kind == idlgen.RStruct && len(s.Structs[t.Key.Sidx].Fields) == 0 && len(v.E) > 0 {
+			v.E = []*values.Value{}
+			return 1
+		}
+		for i := 0; i < v.NPairs(); i++ {
+			n += dropZeroSizeKeys(s, t.Key, v.Key(i)) + dropZeroSizeKeys(s, t.Elem, v.Val(i))
+		}
+	}
+	return n
+}
